@@ -19,13 +19,15 @@ def changeable1 : Item := [some 1, some 1, none, some 2, none]
 def changeable2 : Item := [some 2, some 1, none, some 0, none]
 
 def aw : Cfg := .asWritten
-/-- the member /repo is after `fix:` c542973 (Merge fails only for addressed elements / unknown identifiers) and
-    5e272e0 (selector with an empty list): what the probe phase of `TestHeap` selects on that tree -/
-def head : Cfg := { u := { mergeStrict := false, emptySelPanics := false } }
+/-- the member /repo is after `fix:` c542973 (Merge fails only for addressed elements / unknown identifiers),
+    5e272e0 (selector with an empty list) and e4eb02d (SelectorMatch: an item without the selected field does not
+    match): what the probe phase of `TestHeap` selects on that tree -/
+def head : Cfg := { u := { mergeStrict := false, emptySelPanics := false, selNilPanics := false } }
 /-- `head` plus the series `fixes/c04` (01 flag kept on the in-place paths, 02 delete fails only for addressed
     elements, 04 the fast path stores a copy) -/
 def patched : Cfg :=
-  { fastpathAdopts := false, u := { mergeStrict := false, emptySelPanics := false, inplaceAltersFlag := false, deleteStrict := false } }
+  { fastpathAdopts := false,
+    u := { mergeStrict := false, emptySelPanics := false, selNilPanics := false, inplaceAltersFlag := false, deleteStrict := false } }
 /-- the member with every candidate repair applied -/
 def repaired : Cfg :=
   { fastpathRemote := false, fastpathAdopts := false,
@@ -118,7 +120,7 @@ theorem flag_altered_delete_witness :
     r.1.readStore.map (·.get 1) = [none, some 1] := by decide
 
 /-- the three writes above leave every flag alone in the member whose in-place paths put the flag back
-    (`patches/C04-flag-altered-candidate.patch`); the values they carry are applied -/
+    (`fixes/c04/01-remote-write-keeps-changeability-flag.patch`); the values they carry are applied -/
 theorem flag_altered_repaired_witness :
     (remoteWrite repaired (storeOf [changeable0, changeable2]) [[none, some 0, none, some 2, none]] .nodata .nil).1.readStore
       = [[some 0, some 1, none, some 2, none], [some 2, some 1, none, some 2, none]] ∧
